@@ -25,9 +25,13 @@ def floatApproxF (fraction margin : F) (fx fy : F) : Bool :=
   let relMarg := F.mul fraction (F.min (F.abs fx) (F.abs fy))
   F.le (F.abs (F.sub fx fy)) (F.max margin relMarg)
 
-/-- `FloatValueApprox(fraction, margin)`. -/
+/-- `FloatValueApprox(fraction, margin)`: NaN is only equal to NaN, an infinity only to itself,
+finite values by the arithmetic above. -/
 def floatValueApprox (fraction margin : F) : VCmp
-  | .sc (.float fx), .sc (.float fy) => (floatApproxF fraction margin fx fy, true)
+  | .sc (.float fx), .sc (.float fy) =>
+    if fx.isNaN || fy.isNaN then (fx.isNaN && fy.isNaN, true)
+    else if !fx.isFinite || !fy.isFinite then (F.eq fx fy, true)
+    else (floatApproxF fraction margin fx fy, true)
   | _, _ => (false, false)
 
 /-! ## time.go -/
@@ -78,9 +82,13 @@ def cmpDuration : Val → Val → Int × Int × Bool × Bool × Bool
     else (toDurationNs fx, toDurationNs fy, false, false, false)
   | _, _ => (0, 0, false, false, true)
 
-/-- The arithmetic of `DurationValueWithin` on two int64 durations (Go's `-` wraps). -/
+/-- The arithmetic of `DurationValueWithin` on two int64 durations: order them, subtract (Go's `-` wraps),
+and reject a negative (overflowed) difference. -/
 def durWithinD (d : Int) (xd yd : Int) : Bool :=
-  if xd < yd then decide (wrap64 (yd - xd) ≤ d) else decide (wrap64 (xd - yd) ≤ d)
+  let hi := if xd < yd then yd else xd
+  let lo := if xd < yd then xd else yd
+  let diff := wrap64 (hi - lo)
+  decide (0 ≤ diff) && decide (diff ≤ d)
 
 /-- `DurationValueWithin(d)`. -/
 def durationValueWithin (d : Int) : VCmp := fun x y =>
